@@ -1427,8 +1427,27 @@ pub(crate) fn m_prefix_estimate() {
     }
 }
 
+/// An id yields its marker whatever its element converts to: nothing (hr), a finished node (br), pending children,
+/// or an element that builds nothing (empty div); the marker comes before the element's own text.
+pub(crate) fn m_frag_from_id() {
+    let _which: u8 = kani::any();
+    let html: &[u8] = b"<p>one</p><hr id=\"h\"><p>two<br id=\"b\">three <em id=\"e\">four</em></p><div id=\"d\"></div><p>five <span id=\"s\"></span>six</p><a name=\"n\">seven</a>";
+    let toks = rich_tokens(html, 40, false);
+    let names: Vec<&str> = toks.iter().map(|(t, _)| t.as_str()).collect();
+    for f in ["#h", "#b", "#e", "#d", "#s", "#n"] {
+        assert!(names.iter().filter(|t| **t == f).count() == 1, "marker {} missing or duplicated: {:?}", f, names);
+    }
+    let pos = |w: &str| names.iter().position(|t| t.contains(w)).unwrap_or_else(|| panic!("{} missing: {:?}", w, names));
+    assert!(pos("one") < pos("#h") && pos("#h") < pos("two"), "#h misplaced: {:?}", names);
+    assert!(pos("two") < pos("#b") && pos("#b") < pos("three"), "#b misplaced: {:?}", names);
+    assert!(pos("three") < pos("#e") && pos("#e") < pos("four"), "#e misplaced: {:?}", names);
+    assert!(pos("four") < pos("#d") && pos("#d") < pos("five"), "#d misplaced: {:?}", names);
+    assert!(pos("five") < pos("#s") && pos("#s") < pos("six"), "#s misplaced: {:?}", names);
+    assert!(pos("six") < pos("#n") && pos("#n") < pos("seven"), "#n misplaced: {:?}", names);
+}
+
 crate::verif_common::registry! {
-    m_prefix_estimate, m_style_elements, m_sup_children, m_frag_layout, m_selector_entry, m_block_colour_leak, m_footnote_list, m_strike_layout, m_element_dispatch, m_link_min_width, m_table_sections, m_table_caption, m_inline_tags, m_colspan_huge, m_frag_in_word, m_ol_prefix_width, m_dom_reuse, m_columns, m_prefix_blank_lines, m_shallow_empty, m_link_footnotes, m_strike_affix, m_frag_nested, m_dom_children, m_cell_unwind, m_routes_width, m_insert_child, m_ol_numbering, m_prefix_width, m_into_cells, m_table_col_width, m_table_alloc,
+    m_frag_from_id, m_prefix_estimate, m_style_elements, m_sup_children, m_frag_layout, m_selector_entry, m_block_colour_leak, m_footnote_list, m_strike_layout, m_element_dispatch, m_link_min_width, m_table_sections, m_table_caption, m_inline_tags, m_colspan_huge, m_frag_in_word, m_ol_prefix_width, m_dom_reuse, m_columns, m_prefix_blank_lines, m_shallow_empty, m_link_footnotes, m_strike_affix, m_frag_nested, m_dom_children, m_cell_unwind, m_routes_width, m_insert_child, m_ol_numbering, m_prefix_width, m_into_cells, m_table_col_width, m_table_alloc,
     r1_cascade_pairs, r1_cascade_triples, r2_specificity_order, r2_specificity_add,
     r3_ol_prefix_total, r4_ol_prefix_is_max,
     r9_tree_map_reduce_order, r12_config_plumbing, r12_width_zero,
